@@ -311,6 +311,9 @@ func glob(pat, s string) bool {
 	if !strings.Contains(pat, "*") {
 		return pat == s
 	}
+	if strictGlob {
+		return globBalanced(pat, s)
+	}
 	parts := strings.Split(pat, "*")
 	if !strings.HasPrefix(s, parts[0]) {
 		return false
